@@ -234,6 +234,28 @@ class Allowed(Exception):
     """Raised by Acc.guard after an exception has been recorded or allowed."""
 
 
+class CaseTimeout(BaseException):
+    """Raised inside a worker by time_limit(); BaseException so that code under
+    test with blanket `except Exception` handlers cannot swallow it."""
+
+
+@contextlib.contextmanager
+def time_limit(seconds):
+    """Per-case wall-clock cap (worker processes only; uses SIGALRM)."""
+    import signal
+
+    def handler(signum, frame):
+        raise CaseTimeout("no result within %ss" % seconds)
+
+    old = signal.signal(signal.SIGALRM, handler)
+    signal.setitimer(signal.ITIMER_REAL, seconds)
+    try:
+        yield
+    finally:
+        signal.setitimer(signal.ITIMER_REAL, 0)
+        signal.signal(signal.SIGALRM, old)
+
+
 # ---------------------------------------------------------------------------
 # Hypothesis driving: collect failures without stopping, then shrink per bucket
 
@@ -391,7 +413,19 @@ def run(mod, tier, seed, nproc=None):
         ctx = multiprocessing.get_context("fork")
         with ctx.Pool(min(nproc, len(jobs)), maxtasksperchild=getattr(mod, "MAXTASKS", None)) as pool:
             it = pool.imap_unordered(_worker, [(mod.__name__, j) for j in jobs], chunksize=1)
-            for status, job, payload in it:
+            budget = getattr(mod, "WALL_BUDGET", {}).get(tier, 1500 if tier == "quick" else 4 * 3600)
+            done = 0
+            while done < len(jobs):
+                left = budget - (time.time() - t0)
+                try:
+                    status, job, payload = it.next(timeout=max(1.0, left))
+                except multiprocessing.TimeoutError:
+                    harness_errors.append(({"name": "watchdog"}, "wall budget of %ds exhausted with %d/%d jobs done (inconclusive, not a violation)" % (budget, done, len(jobs))))
+                    pool.terminate()
+                    break
+                except StopIteration:
+                    break
+                done += 1
                 if status == "ok":
                     total.merge(payload)
                 else:
